@@ -45,9 +45,49 @@ def inputs(tier):
     for ci in coupled_inputs:
         for o in OPTION_SETS[1:]:
             out.append(dict(ci, opts=list(o)))
+    # parameter files that move each threshold of the analysis (every early exit must leave the groups as it found them)
+    cfg_inputs = coupled_inputs + [dict(src='corpus', d=corpus.pair_desc(a, b, 2.8, 'deep')) for a, b in
+                                   (('GLU', 'ASP'), ('TYR', 'CYS'), ('HIS', 'HIS'), ('LYS', 'ARG'), ('ASP', 'ACT'), ('GLU', 'HIS'))]
+    for ci in cfg_inputs:
+        for name in sorted(CFG_EDITS):
+            out.append(dict(ci, cfg=name))
     if tier == 'thorough':
         out += [dict(src='corpus', d=corpus.file_desc(k)) for k in ('3SGB', '1HPX')]
     return out
+
+
+CFG_EDITS = {'min_pka=4': {'min_pka': '4.0'}, 'min_pka=8': {'min_pka': '8.0'}, 'max_pka=3': {'max_pka': '3.0'}, 'max_pka=6': {'max_pka': '6.0'},
+             'min_interaction=0': {'min_interaction_energy': '0.0'}, 'min_interaction=2': {'min_interaction_energy': '2.0'},
+             'max_free_energy_diff=0.1': {'max_free_energy_diff': '0.1'}, 'max_free_energy_diff=9': {'max_free_energy_diff': '9.0'},
+             'min_swap_pka_shift=0': {'min_swap_pka_shift': '0.0'}, 'min_swap_pka_shift=4': {'min_swap_pka_shift': '4.0'},
+             'max_intrinsic_pka_diff=0.3': {'max_intrinsic_pka_diff': '0.3'}, 'max_intrinsic_pka_diff=9': {'max_intrinsic_pka_diff': '9.0'},
+             'reference=low-pH': {'reference': 'low-pH'},
+             'all-open': {'min_pka': '-20.0', 'max_pka': '30.0', 'min_interaction_energy': '0.0', 'max_free_energy_diff': '99.0',
+                          'min_swap_pka_shift': '0.0', 'max_intrinsic_pka_diff': '99.0'}}
+
+
+for _k in range(0, 29):     # a grid of window limits: some value separates the default from the swapped state of every coupled pair
+    CFG_EDITS.setdefault('min_pka=%g' % (_k * 0.5), {'min_pka': '%g' % (_k * 0.5)})
+    CFG_EDITS.setdefault('max_pka=%g' % (_k * 0.5), {'max_pka': '%g' % (_k * 0.5)})
+
+
+def cfg_opts(case):
+    name = case.get('cfg')
+    if not name:
+        return ()
+    import os
+    from . import c02
+    path = os.path.abspath('c15_%s.cfg' % name.replace('=', '_'))
+    if not os.path.exists(path):
+        lines = []
+        for ln in c02.cfg_variants()[(1, 0, 0)].splitlines(True):
+            w = ln.split()
+            if w and w[0] in CFG_EDITS[name]:
+                ln = '%s %s\n' % (w[0], CFG_EDITS[name][w[0]])
+            lines.append(ln)
+        with open(path, 'w') as fh:
+            fh.write(''.join(lines))
+    return ('-p', path)
 
 
 def build(inp, seed):
@@ -70,7 +110,8 @@ def plan(tier, seed):
     return dict(shards=shards, exhaustive=True,
                 rule=('inputs: every multiset of 3 kinds (quick: 6 kinds; thorough: 12 kinds, 2 layouts, 3 burial levels), all ordered '
                       'acid-acid and base-base pairs of 6 kinds and 9 acid-base pairs at contact distances and burial levels, 10 A cut-outs '
-                      'around titratable residues (quick: every third). non-trivial = distinct inputs in which the analysis marks at least '
+                      'around titratable residues (quick: every third); 11 coupled inputs under 68 parameter files that move each threshold of '
+                      'the analysis (min/max pKa on a 0.5 grid from 0 to 14, interaction energy, free-energy difference, swap shift, intrinsic pKa difference, reference). non-trivial = distinct inputs in which the analysis marks at least '
                       'one coupled pair; the number of inputs in which at least one swap is evaluated is reported separately'),
                 bounds=dict(inputs=len(ins)), samples=[ins[0], ins[-1]])
 
@@ -81,13 +122,13 @@ OPTION_SETS = ((), ('--log-level', 'DEBUG'), ('-q',), ('--protonate-all',), ('-o
 def run_case(case, ctx, acc):
     s = build(case, ctx.seed)
     text = gen.to_text(s)
-    opts = tuple(case.get('opts', ()))
+    opts = tuple(case.get('opts', ())) + cfg_opts(case)
     try:
         pk.seam_coupling_analysis(True)
         m_on = pk.run(text, opts)
         r_on = pk.record(m_on)
         pk.seam_coupling_analysis(False)
-        m_off = pk.run(text)
+        m_off = pk.run(text, cfg_opts(case))
         r_off = pk.record(m_off)
     finally:
         pk.seam_coupling_analysis(True)
